@@ -517,6 +517,10 @@ func convertValue(val reflect.Value, targetType reflect.Type) (reflect.Value, bo
 
 	// Handle float to string
 	if (val.Kind() == reflect.Float32 || val.Kind() == reflect.Float64) && targetType.Kind() == reflect.String {
+		if val.Kind() == reflect.Float32 {
+			// a float32 is printed as a float32: 0.1, not the float64 nearest to it
+			return reflect.ValueOf(fmt.Sprintf("%v", float32(val.Float()))), true
+		}
 		return reflect.ValueOf(fmt.Sprintf("%v", val.Float())), true
 	}
 
